@@ -822,6 +822,20 @@ def generate():
         # the in-process transport knows which kind of endpoint an attachment is; asked for the other kind it panics (D18, open)
         kp = ('OsIpcChannel::Sender(_)=>panic!("Opaquechannelisnotareceiver!"),' in flat and 'OsIpcChannel::Receiver(_)=>panic!("Opaquechannelisnotasender!"),' in flat)
         out.append(f"def inprocKindMismatchPanics : Bool := {'true' if kp else 'false'}  -- to_sender on a receiver / to_receiver on a sender: `panic!`")
+        # …but decoding does not go through those any more (repair of D18): ipc.rs converts with platform::attachment::{to_sender, to_receiver},
+        # which on this back-end are try_to_sender / try_to_receiver — `None` for the wrong kind, the attachment released
+        fipc = re.sub(r'\s+', '', strip_comments(ipc))
+        fpm = re.sub(r'\s+', '', strip_comments(read('src/platform/mod.rs')))
+        uses = ('.and_then(|mutos_ipc_channel|platform::attachment::to_sender(&mutos_ipc_channel))' in fipc
+                and '.and_then(|mutos_ipc_channel|platform::attachment::to_receiver(&mutos_ipc_channel))' in fipc
+                and 'os_ipc_channel.to_sender()' not in fipc and 'os_ipc_channel.to_receiver()' not in fipc)
+        tries = ('pubfntry_to_sender(&mutself)->Option<OsIpcSender>{matchself.channel.borrow_mut().take(){Some(OsIpcChannel::Sender(s))=>Some(s),_=>None,}}' in flat
+                 and 'pubfntry_to_receiver(&self)->Option<OsIpcReceiver>{matchself.channel.borrow_mut().take(){Some(OsIpcChannel::Receiver(r))=>Some(r),_=>None,}}' in flat)
+        wired = ('pubfnto_sender(channel:&mutOsOpaqueIpcChannel)->Option<OsIpcSender>{channel.try_to_sender()}' in fpm
+                 and 'pubfnto_receiver(channel:&mutOsOpaqueIpcChannel)->Option<OsIpcReceiver>{channel.try_to_receiver()}' in fpm
+                 and 'pubfnto_sender(channel:&mutOsOpaqueIpcChannel)->Option<OsIpcSender>{Some(channel.to_sender())}' in fpm
+                 and 'pubfnto_receiver(channel:&mutOsOpaqueIpcChannel)->Option<OsIpcReceiver>{Some(channel.to_receiver())}' in fpm)
+        out.append(f"def decodeKindMismatchIsError : Bool := {'true' if uses and tries and wired else 'false'}  -- false: decoding calls the panicking conversions")
         out.append(f"def inprocNewRegisters : Bool := {'true' if reg_new else 'false'}")
         out.append(f"def inprocConnectChecked : Bool := {'true' if checked else 'false'}  -- false: `.get(&name).unwrap()` with the registry locked")
         out.append(f"def inprocAcceptUnregisters : Bool := {'true' if acc_unreg else 'false'}")
